@@ -332,7 +332,16 @@ class Matcher:
                     return False
             if spec.get("via"):
                 calls = calls_of(v)
-                missing = [c for c in spec["via"] if not any(x.endswith(c) for x in calls)]
+                # an accessor `Type::name()` may be replaced by a direct read of the like-named field it returns (the driver's
+                # trivial-accessor facts make the two the same value): accept the field read for accessors the crate defines
+                # as plain field getters
+                def _as_field(c):
+                    tgt = [k for k in self.I.crate.bodies if k.endswith(c)]
+                    if len(tgt) == 1 and self.I._trivial_accessor(tgt[0], self.I.crate.bodies[tgt[0]]):
+                        fld = "." + c.split("::")[-1]
+                        return any(pl.endswith(fld) for pl in places(v))
+                    return False
+                missing = [c for c in spec["via"] if not any(x.endswith(c) for x in calls) and not _as_field(c)]
                 if missing:
                     self.err(path, "value does not pass through the expected function", sp, expected=missing, found=sorted(calls))
                     return False
@@ -528,6 +537,11 @@ class Matcher:
             if a[0] == "variant" and a[1] == place:
                 return True
         if node["t"] == "Tagged":
+            from interp import split_guards as _sg
+            for g_ in _sg(node["tag"]):
+                for a in F.atoms(g_):
+                    if a[0] == "variant" and a[1] == place:
+                        return True
             t = core(node["tag"])
             if isinstance(t, TagV) and isinstance(t.n, V):
                 n = core(t.n)
@@ -654,6 +668,16 @@ class Matcher:
         for it in items:
             n = dict(it)
             if it["t"] == "Tagged":
+                from interp import specialise as _spec, split_guards as _sg
+                full_asg = {}
+                for g_ in _sg(it["tag"]):
+                    for a_ in F.atoms(g_):
+                        if a_[0] == "variant" and a_[1] == on:
+                            full_asg[a_] = (a_[2] == X)
+                if full_asg:
+                    # the tag (number) was selected by a case split on the choice's place: take the case of X
+                    n["tag"] = _spec(it["tag"], full_asg)
+                    it = dict(it, tag=n["tag"])
                 t = core(it["tag"])
                 if isinstance(t, PhiV):
                     asg = {("variant", on, X): True}
